@@ -11,12 +11,12 @@ git -C /repo worktree remove --force $WT >/dev/null 2>&1; rm -rf $WT
 git -C /repo worktree add --detach $WT HEAD >/dev/null 2>&1 || { echo "cannot create worktree"; exit 2; }
 cp -r $OUT/demo/. $WT/ 2>/dev/null
 echo "== demo on clean tree (expect PASS)"
-(cd $WT/$MODDIR && timeout 1500 go test -tags "$TAGS" -count=1 "${RUNARGS[@]}" ./$PKG/ 2>&1 | tail -4)
+(cd $WT/$MODDIR && timeout 1500 go test -tags "$TAGS" -count=1 ./$PKG/ "${RUNARGS[@]}" 2>&1 | tail -4)
 echo "== apply patch"
 git -C $WT apply $OUT/patch.diff || { echo "PATCH DOES NOT APPLY"; exit 2; }
 (cd $WT/$MODDIR && go vet -tags "$TAGS" ./$PKG/ 2>&1 | tail -2)
 echo "== demo with patch (expect FAIL)"
-(cd $WT/$MODDIR && timeout 1500 go test -tags "$TAGS" -count=1 "${RUNARGS[@]}" ./$PKG/ 2>&1 | tail -6)
+(cd $WT/$MODDIR && timeout 1500 go test -tags "$TAGS" -count=1 ./$PKG/ "${RUNARGS[@]}" 2>&1 | tail -6)
 echo "== check $PROP against patched tree"
 # remove demo files so that the check sees only the source change
 (cd $WT && git status --short | grep '^??' | awk '{print $2}' | xargs -r rm -rf)
